@@ -22,6 +22,7 @@ Ops_c05 == {"enq", "nextnb", "nextb", "close", "wait", "call", "alive"}
 Ops_c17 == {"enq", "enq@raise", "enq@stuck", "nextnb", "close", "call", "kill", "term", "waitT",
             "restart", "restartP", "restartT", "restartTnf"}
 Ops_c17timed == {"enq", "enq@busy", "enq@slow", "enq@linger", "nextnb", "close", "restartK", "restartKP", "restart"}
+Ops_c05iter == {"enq", "iter1", "nextb", "nextnb", "close", "wait"}
 Ops_c05death == {"enq", "enq@raise", "call", "nextnb", "alive"}
 Ops_c17paths == {"enq", "enq@raise", "enq@stuck", "nextnb", "close", "kill", "term",
                  "restart", "restartP", "restartT", "restartTnf"}
